@@ -283,9 +283,27 @@ def explore(ctx):
             if list(back.items.keys()) != order:
                 F.add("reader", "an RFC rule text is decoded with other parts / order", text=shown,
                       decoded=list(back.items.keys()))
+            pieces = {kv.split("=", 1)[0].upper(): kv.split("=", 1)[1].split(",")
+                      for kv in shown.split(";") if kv.count("=") == 1}
             for p, vals in back.items.items():
                 if not isinstance(vals, list):
                     F.add("reader", f"part {p} of a decoded rule is not a list of values", text=shown)
+                    continue
+                # every value decoded with the type of its part, whatever the letter case of the name
+                kind = rfc.RECUR_PARTS.get(p, "text")
+                for v, piece in zip(vals, pieces.get(p, [])):
+                    if kind in ("integer", "month"):
+                        got = norm(it, v)
+                        want = want_norm(p, piece)
+                        if got != want and not (isinstance(got, tuple) and got[0] == want):
+                            F.add("reader", f"part {p} ({kind}) of an RFC rule text decodes to {got!r} "
+                                  f"({type(v).__name__ if not isinstance(v, Obj) or v.cls is None else v.cls.name}), "
+                                  f"expected {want!r}", text=shown)
+                    elif kind in ("weekday", "frequency") and piece and "Y" not in piece[:1] + "x":
+                        sv = norm(it, v)
+                        if isinstance(sv, str) and sv != piece.upper():
+                            F.add("reader", f"part {p} ({kind}) of an RFC rule text decodes to {sv!r}, "
+                                  f"expected {piece.upper()!r}", text=shown)
         except AbsRaise as e:
             F.add("reader", f"an RFC rule text is rejected ({e.cls_name})", text=shown)
         except Unsupported as e:
